@@ -236,7 +236,7 @@ def rule_r2(chk):
                 break
         chk.ob("C20-R2", "has_variants.Mixin.shrink_num_variants", bad is None,
                "keeps the first new_num variants and nothing else (20 cases: 1..5 variants x requested 1..7)" if bad is None else
-               f"{bad[0]} variants, shrink to {bad[1]}: {bad[2]} (want the variants {bad[3]})", m.loc(g))
+               f"{bad[0]} variants, shrink to {bad[1]}: {bad[2]} (want the variants {bad[3]})", m.loc(g), sure=True)
     except fin.NotFinite as ex:
         chk.undecided("C20-R2", "has_variants.Mixin.shrink_num_variants", f"not evaluable: {ex}", m.loc(g))
     sm = chk.repo.mod("irispie.simultaneous.main")
@@ -586,8 +586,8 @@ def rule_r5(chk):
                 chk.saw(m, q)
 
 
-def rule_r7(chk):
-    chk.rule("C20-R7", "derived state follows the state it is derived from: a copy / unpickled Invariant rebuilds its derived slots from the "
+def rule_r7(chk, rid="C20-R7"):
+    chk.rule(rid, "derived state follows the state it is derived from: a copy / unpickled Invariant rebuilds its derived slots from the "
              "serialized ones, so any store into a serialized slot that _populate_derived_attributes reads (quantities, equations, "
              "context), made after construction, is followed in the same function by a rebuild on the same object - otherwise the "
              "original keeps stale descriptors and differs from its own copy", floor=2)
@@ -610,7 +610,7 @@ def rule_r7(chk):
                 if d and im.has(d) and any(unparse(a) == "self" for a in n.args):
                     work.append(im.func(d))
     deps = sorted(set(ser) & reads)
-    chk.ob("C20-R7", "simultaneous._invariants.Invariant[inputs of the derived slots]", bool(deps), f"derived slots are computed from {deps}", im.loc(pd))
+    chk.ob(rid, "simultaneous._invariants.Invariant[inputs of the derived slots]", bool(deps), f"derived slots are computed from {deps}", im.loc(pd))
     constructors = ("__init__", "__setstate__", "from_source", "from_portable", "__new__", "copy", "__deepcopy__")
     n_sites = 0
     for m in chk.repo.modules.values():
@@ -632,12 +632,12 @@ def rule_r7(chk):
                     rebuilt = any(isinstance(c, ast.Call) and unparse(c.func) == f"{owner}._populate_derived_attributes" and c.lineno >= n.lineno
                                   for c in walk_no_nested(f))
                     chk.saw(m, q)
-                    chk.ob("C20-R7", f"{m.name.replace('irispie.', '')}.{q}[{owner}.{t.attr}]", rebuilt,
+                    chk.ob(rid, f"{m.name.replace('irispie.', '')}.{q}[{owner}.{t.attr}]", rebuilt,
                            f"assigns {owner}.{t.attr} and then calls {owner}._populate_derived_attributes()" if rebuilt else
                            f"assigns {owner}.{t.attr} (an input of the descriptors/equators) without rebuilding them: the model keeps the old derived "
                            "state while its copy or pickle rebuilds it from the new value", m.loc(n))
     if n_sites == 0:
-        chk.ok("C20-R7", "simultaneous[stores into derived-slot inputs after construction]", "none", im.rel)
+        chk.ok(rid, "simultaneous[stores into derived-slot inputs after construction]", "none", im.rel)
 
 
 def run(chk):
